@@ -42,6 +42,8 @@ def plan(tier, seed):
         for ri in range(nrot):
             for r1 in range(nr):
                 shards.append(("pairs", li, ri, r1, nr))
+    for ri in range(3):
+        shards.append(("farout", ri))
     k = seed % len(shards)
     return shards[k:] + shards[:k]
 
@@ -100,7 +102,61 @@ def check_candidate(ubi, cell, g1, g2, need_integer=True):
     return None
 
 
+def _run_farout(desc):
+    """reflections from the OUTERMOST rings of a hexagonal cell at a limit where the Miller indices reach 10 (a quartz-like cell, d* up to
+    2.07): pairs across the last rings and within one ring; the candidate list holds the true orientation.  (An index box that is too
+    small silently thins out exactly these rings.)"""
+    _, ri = desc
+    from ImageD11 import unitcell as ucm
+    sh = Shard()
+    cell, sym, limit, tol = [4.913, 4.913, 5.405, 90, 90, 120], "P", 2.07, 1e-4
+    want, B = O.brute_hkls(cell, sym, limit + tol)
+    uc = ucm.unitcell(cell, sym)
+    uc.makerings(limit, tol)
+    ringds = np.array(uc.ringds)
+    U = O.generic_rotations(seed_of())[ri]
+    UB = np.dot(U, B)
+    ubi_true = np.linalg.inv(UB)
+    # the rings by the oracle: classes of equal d* (to the ring tolerance) among the last 40 reflections' d*, the six outermost with >= 4 members
+    dss = sorted(set(round(d, 6) for d in want.values()))
+    outer = []
+    for d in reversed(dss):
+        mem = [h for h, x in want.items() if abs(x - d) < tol]
+        if len(mem) >= 4 and d < limit - 2 * tol:
+            outer.append((d, mem))
+        if len(outer) >= 6:
+            break
+    for a in range(len(outer)):
+        for b in range(a, min(a + 2, len(outer))):
+            (d1, H1), (d2, H2) = outer[a], outer[b]
+            r1, r2 = int(np.argmin(np.abs(ringds - d1))), int(np.argmin(np.abs(ringds - d2)))
+            for i1 in range(0, len(H1), 5):
+                for i2 in range(1, len(H2), 7):
+                    h1, h2 = H1[i1], H2[i2]
+                    g1, g2 = np.dot(UB, h1), np.dot(UB, h2)
+                    c = float(np.dot(g1, g2) / np.sqrt(np.dot(g1, g1) * np.dot(g2, g2)))
+                    if abs(c) >= 0.97:
+                        continue
+                    case = {"kind": "farout", "rot": ri, "h1": list(h1), "h2": list(h2), "ring1": r1, "ring2": r2, "seed": seed_of()}
+                    if abs(ringds[r1] - d1) > tol or abs(ringds[r2] - d2) > tol:
+                        sh.violation("makerings:outer-ring-missing", case, {"ds": [d1, d2]})
+                        continue
+                    uc.orient(r1, g1, r2, g2, crange=1e-4)
+                    cands = list(uc.UBIlist)
+                    if not cands:
+                        sh.violation("orient:empty-candidate-list", dict(case, crange=1e-4), {})
+                    elif not any(O.lattice_equivalent(u, ubi_true) for u in cands):
+                        sh.violation("orient:true-orientation-not-among-candidates", dict(case, crange=1e-4), {"n_candidates": len(cands)})
+                    sh.evaluations += 1
+                    sh.nontrivial += 1
+    sh.outcomes.add(("farout", ri))
+    sh.sample({"kind": "farout", "rot": ri, "max_index": int(max(max(abs(x) for x in h) for d, H in outer for h in H))}, limit=1)
+    return sh
+
+
 def run_shard(desc):
+    if desc[0] == "farout":
+        return _run_farout(desc)
     _, li, ri, r1, nr = desc
     sh = Shard()
     uc, rings, B = setup(li, nr)
@@ -273,6 +329,11 @@ def run_shard(desc):
 
 
 def replay(case):
+    if case.get("kind") == "farout":
+        os.environ["VERIF_SEED"] = str(case.get("seed", 0))
+        r = _run_farout(("farout", case["rot"]))
+        v = [x for x in r.violations if x["case"]["h1"] == case["h1"] and x["case"]["h2"] == case["h2"]]
+        return (not v), {"violations": v[:2]}
     os.environ["VERIF_SEED"] = str(case.get("seed", 0))
     r = run_shard(("pairs", case["lattice"], case["rot"], case["ring1"], 9 if case["ring2"] >= 6 else 6))
     v = [x for x in r.violations if x["case"]["h1"] == case["h1"] and x["case"]["h2"] == case["h2"] and x["case"]["ring2"] == case["ring2"]]
